@@ -26,6 +26,9 @@ func c17(c *Ctx) {
 	c17numbers(c)
 	c17env(c)
 	c17keys(c)
+	if n := c.freshPerIteration("C17.R5", "core/mapping"); n < 2 {
+		c.R.Undecided("C17.R5", "core/mapping#fresh", "per-iteration stores of reflect.New targets are recognised", fmt.Sprintf("%d found", n))
+	}
 }
 
 func c17paths(c *Ctx) {
